@@ -99,6 +99,9 @@ def gen_case(prop: str, seed: int, tier: str, index: int, classes: List[str]) ->
     cfg = {"class": cls, "net": {"lat_min": 0.001, "lat_max": 0.004}, "loop": loop_cfg, "tables": tables, "end": round(end + 5, 3),
            "snapshot": snaps[rng.randrange(len(snaps))].split("/")[-1],
            "suspend_p": rng.choice([0.0, 0.0, 0.1, 0.3]), "suspend_max": rng.choice([0.3, 1.0, 3.0])}
+    if cls in ("rferr", "mixed"):
+        # tuning knob: how many RF errors one connection tolerates before ERROR_TOO_MANY_RF_ERRORS (shipped: 50)
+        cfg["consts"] = {"MAX_RF_ERRORS_BEFORE_HALT": rng.choice([1, 4, 12, 50])}
     return {"property": prop, "world": "A", "seed": seed, "cfg": cfg, "plan": plan}
 
 
@@ -410,6 +413,8 @@ async def scenario(world: WorldA) -> None:
     for k in ("ERROR_PING_MISSED", "ERROR_RF_FAULT", "ERROR_NEEDS_ATTENTION", "ERROR_SPA_NOT_FOUND"):
         if any(d["state"].name == k for d in man.deliveries):
             res.probe("visited_" + k)
+    if cfg["class"] != "inject" and any(d["event"].name == "ERROR_TOO_MANY_RF_ERRORS" for d in man.deliveries):
+        res.probe("too_many_rf_errors_raised_by_library")
     if len(connected_at) >= 2:
         res.probe("reconnected")
     if any(d.get("suspended") for d in man.deliveries):
